@@ -477,7 +477,10 @@ def orbit_case(pool, allow_cm):
                 "log_amp": draw(st.floats(-3.0, -0.125, allow_nan=False, width=32)),
                 "tol": draw(st.sampled_from([1e-8, 1e-10, 1e-12, 1e-12])),
                 "order": draw(st.sampled_from([8, 8, 8, 5])),
-                "max_attempts": draw(st.sampled_from([50, 50, 50, 50, 50, 3]))}
+                "max_attempts": draw(st.sampled_from([50, 50, 50, 50, 50, 3])),
+                # warm start: a second, identical orbit gets period = T_corrected*(1+warm) before its own correct()
+                # (what continuation does with the previous member's period)
+                "warm": draw(st.sampled_from([None, None, None, 1e-6, -4e-6, 1.5e-5]))}
 
     return _s()
 
@@ -505,18 +508,19 @@ def eval_orbit(case, ctx):
     L = sysobj.get_libration_point(int(c["L"]))
     a_rel = 10.0 ** float(c["log_amp"])
     where = "%s:L%d" % (tag, c["L"])
-    try:
+    def _make():
         gamma = float(L.dynamics.gamma)
         if fam == "halo_n" or fam == "halo_s":
-            orbit = L.create_orbit("halo", amplitude_z=a_rel, zenith="northern" if fam == "halo_n" else "southern")
+            return L.create_orbit("halo", amplitude_z=a_rel, zenith="northern" if fam == "halo_n" else "southern")
         elif fam == "lyapunov":
-            orbit = L.create_orbit("lyapunov", amplitude_x=a_rel * gamma)
+            return L.create_orbit("lyapunov", amplitude_x=a_rel * gamma)
         elif fam == "vertical_amp":
-            orbit = L.create_orbit("vertical", amplitude_z=a_rel * gamma)
-        else:
-            energy = 0.1 + 0.9 * (float(c["log_amp"]) + 3.0) / 2.875
-            seed = _cm(c["sys"], int(c["L"])).to_synodic([0.0, 0.0], energy, "q3")
-            orbit = L.create_orbit("vertical", initial_state=np.asarray(seed, dtype=float))
+            return L.create_orbit("vertical", amplitude_z=a_rel * gamma)
+        energy = 0.1 + 0.9 * (float(c["log_amp"]) + 3.0) / 2.875
+        seed = _cm(c["sys"], int(c["L"])).to_synodic([0.0, 0.0], energy, "q3")
+        return L.create_orbit("vertical", initial_state=np.asarray(seed, dtype=float))
+    try:
+        orbit = _make()
         seed_state = np.array(orbit.initial_state, dtype=float, copy=True)
         seed_period = orbit.period
         opt = orbit.correction_options
@@ -541,6 +545,17 @@ def eval_orbit(case, ctx):
                      "correct() raised %s but initial_state/period changed: %r -> %r, period %r -> %r" % (
                          type(e).__name__, seed_state.tolist(), now_state.tolist(), seed_period, orbit.period))
         return
+    if c.get("warm") is not None and orbit.period is not None:
+        # warm start: identical second orbit whose period is preset close to (not equal to) the corrected one
+        try:
+            orbit2 = _make()
+            orbit2.period = float(orbit.period) * (1.0 + float(c["warm"]))
+            res2 = orbit2.correct(opt)
+            orbit, res = orbit2, res2
+            tag = tag + ":warm-start-period"
+            ctx.classes["B:warm-start-period"] += 1
+        except Exception:
+            ctx.classes["B:warm-start-period:raised"] += 1
     tol = float(c["tol"])
     fails = []
     x0 = np.asarray(orbit.initial_state, dtype=float)
